@@ -27,6 +27,7 @@ Record snap := mk_snap {
   n_count : Z;               (* Association(...).Count() *)
   n_find  : list Z;          (* ids returned by Association(...).Find() *)
   n_mem   : list (list Z);   (* per owner: ids held by the in-memory relation field, in order *)
+  n_other : list (Z * Z);    (* raw links of the same tables that do not belong to the handle *)
   n_err   : Z                (* 0 = the operation returned no error *)
 }.
 
@@ -42,13 +43,15 @@ Record case := mk_case {
 Definition snap_of (k : kind) (os : list Z) (se : st * bool) : snap :=
   let s := fst se in
   mk_snap (map (fun o => sortz (links k s o)) os) (sortz (all_targets k s))
-          (count_ids k os s) (sortz (find_ids k os s)) (mem s) (if snd se then 1 else 0).
+          (count_ids k os s) (sortz (find_ids k os s)) (mem s) (others k os s) (if snd se then 1 else 0).
 
 Definition lists_eqb (a b : list (list Z)) : bool := list_eqb zlist_eqb a b.
+Definition pairs_sub (a b : list (Z * Z)) : bool := forallb (fun p => memp p b) a.
+Definition pairs_seteq (a b : list (Z * Z)) : bool := pairs_sub a b && pairs_sub b a.
 Definition snap_eqb (a b : snap) : bool :=
   lists_eqb (n_links a) (n_links b) && zlist_eqb (n_tgts a) (n_tgts b)
   && (n_count a =? n_count b) && zlist_eqb (n_find a) (n_find b)
-  && lists_eqb (n_mem a) (n_mem b) && (n_err a =? n_err b).
+  && lists_eqb (n_mem a) (n_mem b) && pairs_seteq (n_other a) (n_other b) && (n_err a =? n_err b).
 
 Definition model_agrees (c : case) : bool :=
   snap_eqb (c_snap0 c) (snap_of (c_kind c) (c_os c) (c_init c, false))
@@ -74,6 +77,14 @@ Definition step_ok (k : kind) (before after : snap) (uo : bool * op) : bool :=
   && (length (n_links after) =? length (n_links before))%nat
   && forallb (fun p => set_eqb (fst p) (snd p))
              (combine (n_links after) (spec_step k o (n_links before)))
+  (* only the links of THIS relation and handle change: every other link of the same tables stays,
+     except that a has-one / has-many target given to an owner of the handle leaves its previous owner *)
+  && (let given := List.concat (op_values o (length (n_links before))) in
+      pairs_seteq (n_other after)
+        (match k with
+         | KHasOne | KHasMany => filter (fun p => negb (memz (fst p) given)) (n_other before)
+         | _ => n_other before
+         end))
   (* only links are removed: associated records survive unless Unscoped *)
   && (u || subset (n_tgts before) (n_tgts after))
   && snapshot_ok k after.
